@@ -249,9 +249,32 @@ func checkC16(p *core.Program, r *core.Report) {
 		}
 		undo()
 	}
+	// ... or the mandatory list is a package-level []string that the callback ranges over
+	for _, cs := range core.ExpandSites(proc, mdnsLocalFn, 1, func(in ssa.Instruction) bool {
+		u, ok := in.(*ssa.UnOp)
+		if !ok || u.Op != token.MUL {
+			return false
+		}
+		_, isG := u.X.(*ssa.Global)
+		return isG
+	}) {
+		g := cs.In.(*ssa.UnOp).X.(*ssa.Global)
+		for _, k := range globalStringList(g) {
+			mandatory[k] = true
+		}
+	}
+	// instructions of the resolver callback and of the package-local helpers it calls, each visited with the
+	// helper's parameters bound to the call (so that values keep their identity across an extracted helper)
+	eachBound := func(f func(in ssa.Instruction)) {
+		for _, cs := range core.ExpandSites(proc, mdnsLocalFn, 1, func(ssa.Instruction) bool { return true }) {
+			undo := cs.Bind()
+			f(cs.In)
+			undo()
+		}
+	}
 	// destination fields
 	dst := map[string]map[string]bool{} // key -> entry fields
-	core.EachInstr(proc, func(in ssa.Instruction) {
+	eachBound(func(in ssa.Instruction) {
 		f, b, v := core.StoredField(in)
 		if f == nil || core.NamedOf(b.Type()) != entryT {
 			return
@@ -270,6 +293,82 @@ func checkC16(p *core.Program, r *core.Report) {
 			}
 		}
 	})
+	// the textual fields are stored exactly as they were read: no normalisation / trimming / case folding between
+	// the TXT lookup and the entry field (the announcement carries the configured value verbatim)
+	{
+		var pure func(v ssa.Value, key string, d int) bool
+		pure = func(v ssa.Value, key string, d int) bool {
+			if d > 8 || v == nil {
+				return false
+			}
+			if c, ok := strConst(v); ok && c == "" {
+				return true
+			}
+			if pa, isParam := v.(*ssa.Parameter); isParam {
+				if b := core.Canon(pa); b != ssa.Value(pa) {
+					return pure(b, key, d+1)
+				}
+				return false
+			}
+			switch x := v.(type) {
+			case *ssa.Lookup:
+				for _, l := range lookups[key] {
+					if x == l {
+						return true
+					}
+				}
+				return false
+			case *ssa.Extract:
+				if x.Index == 0 {
+					return pure(x.Tuple, key, d+1)
+				}
+				return false
+			case *ssa.Phi:
+				for _, e := range x.Edges {
+					if !pure(e, key, d+1) {
+						return false
+					}
+				}
+				return true
+			case *ssa.UnOp:
+				// a local spilled to memory
+				if al, ok := x.X.(*ssa.Alloc); ok {
+					okAll, any := true, false
+					for _, ref := range *al.Referrers() {
+						if st, ok := ref.(*ssa.Store); ok && st.Addr == ssa.Value(al) {
+							any = true
+							if !pure(st.Val, key, d+1) {
+								okAll = false
+							}
+						}
+					}
+					return okAll && any
+				}
+			}
+			return false
+		}
+		fieldOfKey := map[string]string{"ski": "Ski", "id": "Identifier", "brand": "Brand", "model": "Model", "type": "Type", "serial": "Serial"}
+		eachBound(func(in ssa.Instruction) {
+			f, b, v := core.StoredField(in)
+			if f == nil || core.NamedOf(b.Type()) != entryT {
+				return
+			}
+			if _, fresh := b.(*ssa.Alloc); !fresh {
+				return
+			}
+			for k, fld := range fieldOfKey {
+				if f.Name() != fld || len(lookups[k]) == 0 {
+					continue
+				}
+				key := "entry field " + fld + " carries TXT value '" + k + "' verbatim"
+				if pure(v, k, 0) {
+					r.OK(R1, key, p.Pos(in.Pos()), "stored as read")
+				} else {
+					r.Fail(R1, key, p.Pos(in.Pos()), "the value read from the TXT record is transformed (normalised, trimmed, case-folded, ...) before it is stored in the entry: the browser reports something other than what was announced (e.g. an upper-case SKI comes back lower-cased)")
+				}
+			}
+		})
+	}
 	// expected assignment (SHIP 7.3.2 + Requirements for Installation Process)
 	expect := map[string][2]string{
 		"ski": {"ski", "Ski"}, "id": {"identifier", "Identifier"}, "path": {"", "Path"}, "brand": {"deviceBrand", "Brand"},
@@ -390,7 +489,7 @@ func checkC16(p *core.Program, r *core.Report) {
 		r.Fail(R1, "register rendered from bool", p.Pos(ann.Pos()), "register is not rendered with %v/%t/FormatBool of the auto-accept flag")
 	}
 	// register value true maps to true
-	core.EachInstr(proc, func(in ssa.Instruction) {
+	eachBound(func(in ssa.Instruction) {
 		f, b, v := core.StoredField(in)
 		if f == nil || f.Name() != "Register" || core.NamedOf(b.Type()) != entryT {
 			return
@@ -798,6 +897,42 @@ func checkC16(p *core.Program, r *core.Report) {
 			collect(core.ResultOf(ret, 0), 0)
 		}
 	})
+	// loops that build the text (e.g. a table of optional fields) visit every element: no break / return inside
+	{
+		nl := 0
+		bad := false
+		eachFn := map[*ssa.Function]bool{}
+		eachInstrWithCallees(p, qr, "mdns", 2, func(in ssa.Instruction) { eachFn[in.Parent()] = true })
+		for fn := range eachFn {
+			for _, b := range fn.Blocks {
+				iff := core.BlockIf(b)
+				if iff == nil {
+					continue
+				}
+				bo, ok := iff.Cond.(*ssa.BinOp)
+				if !ok || bo.Op != token.LSS {
+					continue
+				}
+				if lc, ok := bo.Y.(*ssa.Call); !ok || !isBuiltin(lc, "len") {
+					if _, isConst := bo.Y.(*ssa.Const); !isConst {
+						continue
+					}
+				}
+				if !core.InLoop(b) {
+					continue
+				}
+				nl++
+				if from, _ := core.LoopEarlyExit(b); from != nil {
+					bad = true
+					last := from.Instrs[len(from.Instrs)-1]
+					r.Fail(R4, "QR field loop in "+p.FnName(fn)+" visits every field", p.Pos(last.Pos()), "a loop that assembles the QR text can be left early (break/return): the fields after that point - e.g. every optional field behind an empty one - are missing from the text although they are configured (and announced via mDNS)")
+				}
+			}
+		}
+		if !bad {
+			r.OK(R4, "QR field loops visit every field", p.Pos(qr.Pos()), fmt.Sprintf("%d loop(s), none with an early exit", nl))
+		}
+	}
 	frame := strings.Join(pieces, "")
 	for strings.Contains(frame, "\x00\x00") {
 		frame = strings.ReplaceAll(frame, "\x00\x00", "\x00")
@@ -982,4 +1117,48 @@ func runeStartEstablished(helper *ssa.Function, sl *ssa.Slice, sparam ssa.Value)
 	}
 	back(sl.Block())
 	return bad
+}
+
+// globalStringList: the constant elements a package-level []string / [N]string variable is initialised with.
+func globalStringList(g *ssa.Global) []string {
+	if g.Pkg == nil {
+		return nil
+	}
+	initFn := g.Pkg.Func("init")
+	if initFn == nil {
+		return nil
+	}
+	var out []string
+	collect := func(al *ssa.Alloc) {
+		for _, ref := range *al.Referrers() {
+			if ia, ok := ref.(*ssa.IndexAddr); ok {
+				for _, r2 := range *ia.Referrers() {
+					if st, ok := r2.(*ssa.Store); ok && st.Addr == ssa.Value(ia) {
+						if c, ok := strConst(st.Val); ok {
+							out = append(out, c)
+						}
+					}
+				}
+			}
+		}
+	}
+	core.EachInstr(initFn, func(in ssa.Instruction) {
+		switch x := in.(type) {
+		case *ssa.Store:
+			if x.Addr == ssa.Value(g) {
+				if sl, ok := x.Val.(*ssa.Slice); ok {
+					if al, ok := sl.X.(*ssa.Alloc); ok {
+						collect(al)
+					}
+				}
+			}
+			// [N]string global: elements stored directly
+			if ia, ok := x.Addr.(*ssa.IndexAddr); ok && ia.X == ssa.Value(g) {
+				if c, ok := strConst(x.Val); ok {
+					out = append(out, c)
+				}
+			}
+		}
+	})
+	return out
 }
